@@ -181,7 +181,14 @@ def run_oracle(case):
         graph_ok = False
     for i in live:
         v = im.objs[i]
-        isc = m.is_constant(v)
+        try:
+            isc = m.is_constant(v)
+        except Exception as e:
+            # is_constant only looks at the definition of v: it has no reason to raise on a model it accepted
+            if not graph_ok:
+                continue        # ill-formed histories (a dangling variable): the graph itself raises, nothing to compare
+            bad.append(('is_constant(%s) raises %s' % (v.name, vlib.err_class(e)), {}))
+            continue
         want_c = i in defs and not any(True for _ in walk_vars(case['pool'][defs[i]]['rhs'])) if False else None
         eq = m.get_definition(v)
         want_c = (i in defs) and (i not in odes) and len(im.eqobjs[defs[i]].rhs.atoms(M.Variable)) == 0
